@@ -22,10 +22,11 @@ inductive Ty where
   | fn (arg ret : Ty)           -- `Function { arg, ret }`
 deriving DecidableEq, Repr, Inhabited
 
-/-- the `parent` fields of the type-variable cells: `v ↦ parent`, absent = `None` -/
+/-- the `parent` fields of the type-variable cells: `v ↦ parent`, absent = `None` (the lookup `parent` is generic in the type of
+the parents: `Model/Unify.lean` uses it on the un-abstracted types) -/
 abbrev Store := List (Nat × Ty)
 
-def parent (σ : Store) (v : Nat) : Option Ty :=
+def parent {α : Type} (σ : List (Nat × α)) (v : Nat) : Option α :=
   match σ with
   | [] => none
   | (w, t) :: rest => if w = v then some t else parent rest v
